@@ -68,7 +68,7 @@ def strat(tier):
         if klass == 'invalid':
             bad = draw(st.sampled_from(['start<0', 'stop=0', 'stop<start', 'factor<1', 'count<0', 'jitter>1', 'jitter<-1']))
             return {'sub': 'backoff', 'klass': klass, 'bad': bad, 'start': start or 1.0, 'stop': (start or 1.0) * 4, 'ulps': 0,
-                    'factor': max(factor, 1.5), 'count': draw(st.sampled_from([None, 3, 'repeat'])),
+                    'factor': max(factor, 1.5), 'count': draw(st.sampled_from([None, 3, 'repeat', 0, 1])),
                     'jitter': False, 'draws': draws, 'amount': draw(st.floats(0.001, 100.0))}
         stop = draw(st.one_of(st.floats(0.0, 1e9), st.floats(0.0, 2.0), st.integers(1, 1000).map(float)))
         stop = max(stop, start)
